@@ -67,6 +67,7 @@ TOTAL_CALLS = {
 TOTAL_METHODS = {
     "append", "items", "values", "keys", "join", "rstrip", "lstrip", "strip", "startswith", "endswith", "is_set",
     "copy", "getvalue", "format", "lower", "upper", "find", "split",
+    "isdigit", "isalpha", "isalnum", "isascii", "isspace", "isdecimal", "removeprefix", "removesuffix", "partition", "rpartition", "rsplit", "count", "zfill",
 }
 EXC_CTORS = {"LoadError", "DumpError", "DataFormatError", "EOFError", "OSError", "ValueError", "TypeError",
              "KeyError", "IndexError", "RemoteError", "AttributeError", "RuntimeError", "NotImplementedError",
